@@ -229,6 +229,13 @@ class Adapter(EnvAdapter):
     props = ("C01", "C03", "C05", "C07", "C09", "C10", "C11", "C12")
 
     def configs(self, tier):
+        # time-limit sweep ("for every value passed", C11): one surviving episode per value, no probes
+        from harness.envs.base import T_SWEEP_QUICK_FEW, T_SWEEP_THOROUGH_FEW
+
+        ts = T_SWEEP_QUICK_FEW if tier == "quick" else T_SWEEP_THOROUGH_FEW
+        return self._base_configs(tier) + [_c(f"toy_t{t}_sweep", "toy", "dense", t, episodes=1, max_steps=t + 2, policies=["survive"], probe_every=0, props=["C03", "C11"]) for t in ts]
+
+    def _base_configs(self, tier):
         if tier == "quick":
             return [
                 _c("toy_dense_tdefault", "toy", "dense", None, episodes=4, max_steps=123, probe_every=3,
